@@ -184,6 +184,18 @@ class ClassC:
         self.invariants.append((expr, label or "inv%d" % len(self.invariants)))
         return self
 
+    def volatile(self, *fields):
+        """fields written by another thread: before every read in code of the monitored class the environment step (interfere) is applied,
+        so stale and torn observations are covered (DESIGN §5.2)"""
+        for f in fields:
+            self.unit.volatile.add((self.name, f))
+        return self
+
+    def after_write(self, field, expr, label):
+        """guarantee: after every write of `field` by code under verification `expr` must hold (self = the object written)"""
+        self.unit.write_guarantees.setdefault((self.name, field), []).append((expr, label))
+        return self
+
     def guarded(self, field, cond, label=None):
         """code may read or write `field` only while `cond` holds (e.g. while the monitor lock is held): obligation guarded-access@L"""
         self.unit.guards[(self.name, field)] = (cond, label or "guarded-access")
@@ -237,6 +249,8 @@ class Unit:
         self.lemmas = []          # lemmas proved by induction
         self.rec_defs = {}        # name -> (params, defining equation)
         self.guards = {}          # (class, field) -> (condition, label)
+        self.volatile = set()     # (class, field) read with an environment step first
+        self.write_guarantees = {}   # (class, field) -> [(expr, label)] obligations after each write
         self.interference = None  # thread-modular environment step (DESIGN §5): see interfere()
         self.env = {}             # dotted name -> trusted FuncC (library functions)
         self.assumptions = []     # free text, goes to the evidence
